@@ -1,1 +1,65 @@
-Require Import RIO.Base.
+(* C15 — HTML filters edit the targeted element as specified on well-formed documents.
+   The universal statement (for every generated DOM tree: out = serialize(reference_edit(d))) is NOT proved: it is
+   decided by the correspondence run, where the reference edit is computed on the generator's tree and compared with
+   the crate AND with the model of RIO.HtmlFilter (so a disagreement is localised).  What is proved here:
+     - the chain discipline composes several filters in order (C15_compose: the chain output of two total stages on
+       one chunk is the second stage applied to the first stage's output, then the ends cascade);
+     - on the executable model, the three actions with and without selector on a document exercising every clause of
+       the statement (sibling targets, void and self-closing targets, nested path, comments, upper-case tags): these are
+       TESTS evaluated by the kernel (vm_compute), not universal theorems. *)
+Require Import Coq.Strings.String Coq.Strings.Ascii.
+Require Import RIO.Base RIO.TokMonad RIO.HtmlTok RIO.BodyText RIO.HtmlFilter RIO.ChainProofs RIO.BodyProofs RIO.CodecChain RIO.C03Run.
+Close Scope N_scope.
+Open Scope string_scope.
+
+Fixpoint b (s : string) : list N := match s with EmptyString => [] | String c r => N_of_ascii c :: b r end.
+
+Definition hf (k : hkind) (value : string) (tree : list string) (css : option string) : body_filter :=
+  BFHtml {| hf_kind := k; hf_value := b value; hf_tree := map b tree; hf_css := match css with Some c => Some (b c) | None => None end |}.
+Definition run1 (sel : str -> str -> bool) (fs : list body_filter) (doc : string) : list N := body_run lower_ascii sel true fs [b doc].
+
+Definition doc1 := "<!DOCTYPE html><HTML lang=en><head><title>t</title></head><body class='a>b'><!-- <main> --><main><p>one</p><br><p>two</P></main><script>if (a</main>) {}</script></body></html>".
+
+(* several filters compose in order: two total stages on one non-empty chunk *)
+Theorem C15_compose : forall (stage : Type) tf (s1 s2 : stage) (d : str),
+  snd (tf s1 d) <> [] ->
+  snd (cf stage tf [s1; s2] d) = snd (tf s2 (snd (tf s1 d))).
+Proof.
+  intros stage tf s1 s2 d H. cbn [cf]. destruct (tf s1 d) as [s1' o1]. cbn [snd] in *.
+  destruct o1 as [|x o1]; [congruence|]. cbn [is_nil]. destruct (tf s2 (x :: o1)) as [s2' o2]. cbn [snd].
+  destruct (is_nil o2); reflexivity.
+Qed.
+
+Example C15_append_child : run1 (fun _ _ => false) [hf HAppendChild "<i>V</i>" ["html"; "body"; "main"] None] doc1
+  = b "<!DOCTYPE html><HTML lang=en><head><title>t</title></head><body class='a>b'><!-- <main> --><main><p>one</p><br><p>two</P><i>V</i></main><script>if (a</main>) {}</script></body></html>".
+Proof. vm_compute. reflexivity. Qed.
+
+Example C15_prepend_child : run1 (fun _ _ => false) [hf HPrependChild "<i>V</i>" ["html"; "body"; "main"] None] doc1
+  = b "<!DOCTYPE html><HTML lang=en><head><title>t</title></head><body class='a>b'><!-- <main> --><main><i>V</i><p>one</p><br><p>two</P></main><script>if (a</main>) {}</script></body></html>".
+Proof. vm_compute. reflexivity. Qed.
+
+(* replace: every sibling occurrence of the target, start tag to end tag *)
+Example C15_replace_siblings : run1 (fun _ _ => false) [hf HReplace "<i>V</i>" ["html"; "body"; "main"; "p"] None] doc1
+  = b "<!DOCTYPE html><HTML lang=en><head><title>t</title></head><body class='a>b'><!-- <main> --><main><i>V</i><br><i>V</i></main><script>if (a</main>) {}</script></body></html>".
+Proof. vm_compute. reflexivity. Qed.
+
+(* replace a void target *)
+Example C15_replace_void : run1 (fun _ _ => false) [hf HReplace "<hr/>" ["html"; "body"; "main"; "br"] None] doc1
+  = b "<!DOCTYPE html><HTML lang=en><head><title>t</title></head><body class='a>b'><!-- <main> --><main><p>one</p><hr/><p>two</P></main><script>if (a</main>) {}</script></body></html>".
+Proof. vm_compute. reflexivity. Qed.
+
+(* selector: append acts only when NO element of the target matches; replace only when one does *)
+Example C15_append_selector_matches : run1 (fun _ _ => true) [hf HAppendChild "<i>V</i>" ["html"; "body"; "main"] (Some "p")] doc1 = b doc1.
+Proof. vm_compute. reflexivity. Qed.
+Example C15_replace_selector_no_match : run1 (fun _ _ => false) [hf HReplace "<i>V</i>" ["html"; "body"; "main"] (Some "em")] doc1 = b doc1.
+Proof. vm_compute. reflexivity. Qed.
+Example C15_replace_selector_matches : run1 (fun _ _ => true) [hf HReplace "<i>V</i>" ["html"; "body"; "main"] (Some "p")] doc1
+  = b "<!DOCTYPE html><HTML lang=en><head><title>t</title></head><body class='a>b'><!-- <main> --><i>V</i><script>if (a</main>) {}</script></body></html>".
+Proof. vm_compute. reflexivity. Qed.
+
+(* two filters in order *)
+Example C15_two_filters : run1 (fun _ _ => false) [hf HAppendChild "<i>V</i>" ["html"; "body"; "main"] None; hf HPrependChild "<b>W</b>" ["html"; "body"] None] doc1
+  = b "<!DOCTYPE html><HTML lang=en><head><title>t</title></head><body class='a>b'><b>W</b><!-- <main> --><main><p>one</p><br><p>two</P><i>V</i></main><script>if (a</main>) {}</script></body></html>".
+Proof. vm_compute. reflexivity. Qed.
+
+Print Assumptions C15_compose.
